@@ -305,7 +305,7 @@ func VerifRun_C19() {
 		if d.deep {
 			class = "C19-nested-function-outline"
 		}
-		if edited {
+		if edited || verifParamOr("EDITED", 0) == 2 {
 			// a member written before the statement that declares its (global) table
 			owner := d.full
 			for k := 0; k < len(owner); k++ {
